@@ -45,7 +45,7 @@ GEN = '''SPECIFICATION GenSpec
 CONSTANTS
   Procs = {%s}
   FastTypes = %s
-  SlowTypes = {"H"}
+  SlowTypes = {"H", "J"}
   QType = %s
   Sides = {"%s"}
   Variant = "%s"
